@@ -273,7 +273,7 @@ class TickRateAttribute:
 
       m = TickRateAttribute._TICK_RATE_RE.fullmatch(tr)
 
-      if m is not None:
+      if m is not None and int(m.group(1)) > 0:
 
         return int(m.group(1))
 
